@@ -109,6 +109,8 @@ def Open : Ph → Prop
   | .s0 | .s | .qs0 | .qs | .q | .c | .fin => True
   | _ => False
 
+instance : DecidablePred Open := fun p => by cases p <;> unfold Open <;> exact inferInstance
+
 /-- The word `ts` is a complete conversation for a request of kind `k`. -/
 def Conforms (k : Kind) (ts : List RType) : Prop :=
   ∃ p, run (init k) ts = some p ∧ Complete p
@@ -165,15 +167,26 @@ def accRun : AccSt → List Ev → AccSt
   | cs, [] => cs
   | cs, e :: es => accRun (accStep cs e) es
 
-/-- At a quiet point (every handler returned or parked in its subscription loop) a configuration is
-    final if every request is complete or is a subscription still delivering. -/
-def quietOk (c : Config) : Bool :=
-  c.all (fun r => decide (Complete r.ph) || r.ph == .s0 || r.ph == .s)
+/-- A cancel that stayed silent found a subscription registered under its operation ID and closed its
+    feed; once things are quiet some subscription of that ID has therefore finished. -/
+def cancelRule (c : Config) : Bool :=
+  c.all (fun r => !(r.kind == .cancel && r.ph == .c) ||
+    c.any (fun s => s.op == r.op && (s.kind == .sub || s.kind == .qsub) && s.ph == .fin))
 
-/-- After the epilogue of a recorded scenario (every live subscription cancelled, handlers returned)
-    every request must be complete. -/
-def finalOk (c : Config) : Bool :=
-  c.all (fun r => decide (Complete r.ph))
+/-- At a quiet point (every handler returned or parked in its subscription loop) a configuration is
+    final if every request is complete or is a subscription still delivering, and every silent cancel
+    is accounted for. A subscription may stay live for ever: one whose cancel was refused with an error
+    (e.g. because a second subscription reused its operation ID) has not been cancelled. -/
+def quietOk (c : Config) : Bool :=
+  c.all (fun r => decide (Complete r.ph) || r.ph == .s0 || r.ph == .s) && cancelRule c
+
+/-- End of a recorded scenario (after the epilogue that tries to cancel every live subscription). -/
+def finalOk (c : Config) : Bool := quietOk c
+
+/-- At connection teardown (all handlers returned): one-shot requests are complete, queries and
+    subscriptions may have been cut off anywhere. -/
+def downOk (c : Config) : Bool :=
+  c.all (fun r => decide (Open r.ph))
 
 /-- Declarative meaning of acceptance: some attribution exists. -/
 def Accepted (es : List Ev) : Prop := accRun accInit es ≠ []
